@@ -454,7 +454,14 @@ pub fn run(rep: &mut Report, tier: &str, miri: bool) {
                 continue;
             }
             rep.evaluations += 1;
-            if let Some(d) = r.reference_dest_value(n) {
+            let proposed = match std::panic::catch_unwind(|| r.reference_dest_value(n)) {
+                Ok(p) => p,
+                Err(_) => {
+                    viol(rep, "refs/lookup-panics", "ElementType", format!("{r:?}.reference_dest_value({n:?}) panics"));
+                    continue;
+                }
+            };
+            if let Some(d) = proposed {
                 some += 1;
                 if !n.verify_reference_dest(d) {
                     viol(rep, "refs/dest-not-accepted", "ElementType", format!("{r:?}.reference_dest_value({n:?}) = {d:?} but the target type does not accept it"));
